@@ -316,7 +316,7 @@ func (d *coreDriver) settle() {
 	if p == nil {
 		return
 	}
-	for i := 0; i < 400; i++ {
+	for i := 0; i < 20000; i++ {
 		busy := false
 		for _, a := range p.GetApplications() {
 			st := a.CurrentState()
@@ -327,7 +327,7 @@ func (d *coreDriver) settle() {
 		if !busy {
 			return
 		}
-		time.Sleep(250 * time.Microsecond)
+		time.Sleep(200 * time.Microsecond)
 	}
 }
 
